@@ -91,6 +91,11 @@ func Verify(a wallet.Address, state *State, sig wallet.Sig) (bool, error) {
 	return backend[a.BackendID()].Verify(a, state, sig)
 }
 
+// HasBackend returns whether a channel backend is set for the given id.
+func HasBackend(id wallet.BackendID) bool {
+	return backend[id] != nil
+}
+
 // NewAsset returns a variable of type Asset, which can be used
 // for unmarshalling an asset from its binary representation.
 func NewAsset(id wallet.BackendID) Asset {
